@@ -21,6 +21,7 @@ func checkC14(c *Ctx, r *Report) {
 	c14R3(c, r)
 	c14R4(c, r)
 	c14R5(c, r)
+	c14PoolSlice(c, r)
 }
 
 func isHandlerInvoke(in ssa.Instruction) bool {
@@ -928,5 +929,50 @@ func c14R5(c *Ctx, r *Report) {
 			}
 		}
 		r.check(len(problems) == 0, "C14.R5.mux-keys", "ServeMux.ServeDNS", c.pos(f.Pos()), "match(first question) else REFUSED", "%s", strings.Join(problems, "; "))
+	}
+}
+
+// c14PoolSlice: the receive buffer is returned to the pool re-sliced to the pool's element size,
+// m[:srv.UDPSize]. A DecorateReader may hand serveDNS a buffer of any capacity, so each such re-slice must be
+// behind cap(m) == srv.UDPSize; without it the slice expression panics for every message that takes that way out
+// (ignored, rejected or undecodable datagrams). This is the one bounds obligation of the per-message function that
+// depends on configuration rather than on the message, and the three sites are siblings.
+func c14PoolSlice(c *Ctx, r *Report) {
+	r.rule("C14.R1.pool-slice", 3, "every m[:srv.UDPSize] handed back to the buffer pool is behind cap(m) == srv.UDPSize")
+	n := 0
+	for _, name := range []string{"Server.serveUDP", "Server.serveDNS", "Server.serveUDPPacket"} {
+		fn := c.ssaFunc(name)
+		if fn == nil {
+			continue
+		}
+		allInstrs(fn, func(in ssa.Instruction) {
+			sl, ok := in.(*ssa.Slice)
+			if !ok || sl.High == nil || !anyIn(sliceOf(sl.High), readsField("Server", "UDPSize")) {
+				return
+			}
+			if _, isBytes := sl.X.Type().Underlying().(*types.Slice); !isBytes {
+				return
+			}
+			n++
+			construct := fmt.Sprintf("%s:m[:UDPSize]#%d", name, n)
+			capOf := func(v ssa.Value) bool {
+				call, ok := v.(*ssa.Call)
+				return ok && calleeNameSSA(&call.Call) == "builtin.cap" && call.Call.Args[0] == sl.X
+			}
+			miss := guardsMissing(fn, sl.Block(), []Guard{{Name: "cap(m) == srv.UDPSize", Op: "eq", A: capOf, B: readsField("Server", "UDPSize"), Holds: true}})
+			// a buffer that came out of the pool in this very function has the pool's size
+			fromPool := anyIn(shallowOrigins(sl.X), func(v ssa.Value) bool {
+				ta, ok := v.(*ssa.TypeAssert)
+				if !ok {
+					return false
+				}
+				call, ok := ta.X.(*ssa.Call)
+				return ok && calleeNameSSA(&call.Call) == "(sync.Pool).Get"
+			})
+			r.check(len(miss) == 0 || fromPool, "C14.R1.pool-slice", construct, c.pos(sl.Pos()), "cap(m) == srv.UDPSize", "the buffer is re-sliced to srv.UDPSize without cap(m) == srv.UDPSize having been tested: with a DecorateReader that returns its own, smaller buffer this slice expression panics for every datagram that leaves through here (ignored, rejected, undecodable): the server goes down on a malformed packet")
+		})
+	}
+	if n == 0 {
+		r.note("C14.R1.pool-slice: no m[:srv.UDPSize] re-slice found")
 	}
 }
